@@ -27,7 +27,10 @@ TInit == Init /\ l = 1 /\ TLCSet(7, 0)
 TReset == /\ Cur("Reset") /\ E.reb = RebT /\ Range(E.tps) = AllTP
           /\ grp' = NoGrp /\ store' = NoGrp /\ now' = 0 /\ offs' = [tp \in AllTP |-> -1]
           /\ alive' = [m \in Members |-> -1] /\ gstart' = 0 /\ fgen' = -1 /\ pend' = NoPend /\ last' = [ev |-> "Init"] /\ obs' = [ev |-> "Init"] /\ hist' = <<>>
-TJoin == /\ Cur("Join") /\ Join(E.c, Range(E.sub), E.sess)
+TJoinErr == Cur("JoinErr") /\ Join(E.c, Range(E.sub), E.sess, TRUE) /\ last'.ev = "JoinErr" /\ StMatch
+TJoinFail == /\ Cur("JoinFail") /\ JoinX(E.c, Range(E.sub), E.sess, FALSE, TRUE) /\ last'.ev = "JoinFail"
+             /\ last'.rgen = E.rgen /\ last'.leader = E.leader /\ StMatch
+TJoin == /\ Cur("Join") /\ Join(E.c, Range(E.sub), E.sess, FALSE)
          /\ last'.code = E.code /\ last'.rgen = E.rgen /\ last'.leader = E.leader /\ last'.list = Range(E.list) /\ StMatch
 TSync == /\ Cur("Sync") /\ \E d \in {0, -1} : Sync(E.c, d)
          /\ last'.gen = E.gen /\ last'.code = E.code /\ last'.asg = Range(E.asg) /\ StMatch
@@ -41,7 +44,7 @@ TDelete == Cur("DeleteGroups") /\ DeleteGroups /\ last'.code = E.code /\ StMatch
 TTick == Cur("Tick") /\ Tick /\ StMatch
 TFailover == Cur("Failover") /\ Failover /\ StMatch
 Consumed == TLCSet(7, IF TLCGet(7) < l THEN l ELSE TLCGet(7))   \* high-water mark of consumed lines
-TNext == (TReset \/ TJoin \/ TSync \/ THeartbeat \/ TCommit \/ TLeave \/ TDelete \/ TTick \/ TFailover) /\ Consumed
+TNext == (TReset \/ TJoin \/ TJoinErr \/ TJoinFail \/ TSync \/ THeartbeat \/ TCommit \/ TLeave \/ TDelete \/ TTick \/ TFailover) /\ Consumed
 TSpec == TInit /\ [][TNext]_tvars
 Reached == PrintT(<<"CONF", ToJson([reached |-> TLCGet(7), total |-> Len(TraceLog)])>>)
 ====
